@@ -963,7 +963,7 @@ def load_task_guards(ctx: Ctx):
                  '' if okb else 'metadata of foreign keys is opened before the prefix guard', construct='prefix-first')
 
 
-@rule('C09.KEY-FORMAT-AGREE', ['C09', 'C07'])
+@rule('C09.KEY-FORMAT-AGREE', ['C09', 'C07', 'C08'])
 def key_format_agree(ctx: Ctx):
     """The startswith template in load_metadata is a prefix of the cache_key template."""
     bc = base_cache(ctx)
@@ -1139,3 +1139,60 @@ def delete_total(ctx: Ctx):
                      'rollback of a failed save) it raises before the rest is removed, and the leftover looks cached')
     if n < 2:
         raise AnalysisError('fewer than two Storage.delete implementations found')
+
+
+# ----------------------------------------------------------------------------------------
+# options of the JSON encoder calls
+
+_JSON_OPTION_PROPS = {
+    'allow_nan': ['C15', 'C07'],
+    'ensure_ascii': ['C06', 'C09', 'C08'],
+    'skipkeys': ['C07', 'C06'],
+    'default': ['C07', 'C06'],
+}
+
+
+@rule('C07.JSON-OPTIONS', ['C06', 'C07', 'C08', 'C09', 'C15'])
+def json_options(ctx: Ctx):
+    """The JSON encoder calls of the cache keep the encoder total and faithful over the documented parameter grammar:
+    allow_nan stays on (inf / nan are accepted float parameters; with allow_nan=False the key computed at construction
+    raises ValueError); ensure_ascii stays on where the text goes to a storage file handle (opened without an encoding: the
+    bytes written, and whether they can be read back, would depend on the locale of each process); skipkeys stays off and
+    no default= fallback is installed (entries dropped or keyed by a fallback representation make unequal tasks collide)."""
+    n = 0
+    for fn in ctx.P.all_functions():
+        if fn.module.name != f'{PKG}.cache':
+            continue
+        for call in calls_in(fn.node):
+            d = dotted(call.func)
+            if d not in ('json.dump', 'json.dumps'):
+                continue
+            n += 1
+            kws = {k.arg: k.value for k in call.keywords if k.arg}
+            star = any(k.arg is None for k in call.keywords)
+
+            def const(name):
+                v = kws.get(name)
+                return v.value if isinstance(v, ast.Constant) else ('?' if v is not None else None)
+            checks = []
+            an = const('allow_nan')
+            checks.append(('allow_nan', an in (None, True) and not star,
+                           f'`{src(call)[:80]}` turns allow_nan off: float("inf") / float("nan") are accepted parameter values, and the '
+                           'encoder now raises ValueError for them (for the key: already while the task is being constructed)'))
+            if d == 'json.dump':
+                ea = const('ensure_ascii')
+                checks.append(('ensure_ascii', ea in (None, True) and not star,
+                               f'`{src(call)[:80]}` writes non-ASCII characters as they are into a handle opened without an explicit encoding: '
+                               'what is stored, and whether a later process can read it, depends on the locale of each process'))
+            sk = const('skipkeys')
+            checks.append(('skipkeys', sk in (None, False) and not star,
+                           f'`{src(call)[:80]}` skips keys the encoder cannot write: entries vanish from the key / metadata silently'))
+            checks.append(('default', 'default' not in kws and 'cls' not in kws and not star,
+                           f'`{src(call)[:80]}` installs a fallback encoder: values outside the documented grammar are keyed by a fallback '
+                           'representation instead of being rejected'))
+            for opt, ok, why in checks:
+                if ctx.pid is not None and ctx.pid not in _JSON_OPTION_PROPS[opt]:
+                    continue
+                yield ctx.ob('C07.JSON-OPTIONS', ok, fn, call, f'{d}: {opt}', '' if ok else why, construct=f'{d}:{opt}')
+    if n < 2:
+        raise AnalysisError(f'expected the key and the metadata JSON encoder calls in cache.py, found {n}')
